@@ -116,9 +116,10 @@ theorem doc_compress_decompress' (ext : Ext) (deflate : Bytes → Bytes) (allows
         exact congrArg some (decompS_plain' ext ⟨d, c⟩ hn hf)
     | _ => cases allow <;> rfl
 
-/-- the guard on `Filter` is needed: with the EMPTY filter array `decompress` replaces the content by the empty string -/
+/-- the former witness of finding F-C09-d (repaired by lopdf 70e5e99): with the EMPTY filter array `decompress`
+keeps the content -/
 theorem decompress_empty_filter_witness' (ext : Ext) :
     getPlainContent ext ⟨[(K_FILTER, .arr [])], [1, 2, 3]⟩ = .ok [1, 2, 3] ∧
-    (decompS ext ⟨[(K_FILTER, .arr [])], [1, 2, 3]⟩).content = [] := by
+    (decompS ext ⟨[(K_FILTER, .arr [])], [1, 2, 3]⟩).content = [1, 2, 3] := by
   constructor <;> rfl
 end Lopdf
